@@ -97,3 +97,65 @@ def split_lines(c: list):
     if st < n:
         out.append((st, n))
     return out
+
+
+def replace(c: list, old: str, new: str) -> list:
+    """Code-point version of str.replace (left-to-right, non-overlapping)."""
+    out = []
+    i = 0
+    n = len(c)
+    k = len(old)
+    newc = lit(new)
+    while i < n:
+        if i + k <= n and starts(c, i, old):
+            out.extend(newc)
+            i += k
+        else:
+            out.append(c[i])
+            i += 1
+    return out
+
+
+def count(c: list, sub: str) -> int:
+    i = 0
+    n = len(c)
+    k = len(sub)
+    tot = 0
+    while i + k <= n:
+        if starts(c, i, sub):
+            tot += 1
+            i += k
+        else:
+            i += 1
+    return tot
+
+
+def contains(c: list, sub: str) -> bool:
+    k = len(sub)
+    for i in range(len(c) - k + 1):
+        if starts(c, i, sub):
+            return True
+    return False
+
+
+def same(a: list, b: list) -> bool:
+    """Element-wise equality of two code-point lists (symbolic elements decided by the solver)."""
+    if len(a) != len(b):
+        return False
+    for x, y in zip(a, b):
+        if x is y:
+            continue
+        if type(x) is int and type(y) is int:
+            if x != y:
+                return False
+        else:
+            from crosshair.tracers import ResumedTracing, is_tracing
+
+            if is_tracing():
+                if x != y:
+                    return False
+            else:
+                with ResumedTracing():
+                    if x != y:
+                        return False
+    return True
